@@ -495,6 +495,11 @@ fn search(r: &mut Rng, n: usize) {
         ("≡", "/↥", 1, num(&[2, 0], &[])),
         ("≡", "/↧", 1, byte(&[2, 0], &[])),
         ("≡", "□", 2, num(&[2, 3, 0], &[])),
+        // repaired by 0eeae7e: a pervasive pulled out of rows/each failed on the type of an EMPTY array
+        ("≡", "¬", 1, chars(&[0, 2], &[])),
+        ("∵", "¬", 1, chars(&[0, 2], &[])),
+        ("≡", "¬", 3, chars(&[0, 2], &[])),
+        ("≡", "⌵", 1, boxes(&[0], vec![])),
         ("/", "⊂", 0, num(&[1], &[5.])),
     ];
     for (m, f, k, x) in &corpus {
@@ -510,6 +515,7 @@ fn search(r: &mut Rng, n: usize) {
     each3_case(&mut rep, &mut ev, "(⊂⊂)", &num(&[2, 0], &[]), &num(&[], &[1.]), &num(&[2, 0], &[]));
     marked_corpus(&mut rep, &mut ev);
     multi_corpus(&mut rep, &mut ev);
+    routing_corpus(&mut rep, &mut ev, r);
     let mut i = 0;
     while i < n {
         i += 1;
@@ -646,8 +652,11 @@ fn search(r: &mut Rng, n: usize) {
             let idx: Vec<i64> = (0..n).map(|_| r.range(-1, 3)).collect();
             let part = r.chance(1, 2);
             group_case(&mut rep, &mut ev, &idx, &x, part);
-        } else {
+        } else if r.chance(1, 2) {
             routing_case(&mut rep, &mut ev, r);
+        } else {
+            let kind = r.below(5);
+            routing_pack_case(&mut rep, &mut ev, r, kind, None);
         }
     }
     rep.evals = ev;
@@ -1211,6 +1220,165 @@ const ROUTE_F: &[(&str, usize, usize)] = &[
     ("(⊟⊙⇌)", 2, 1),
     ("(⊙◌)", 2, 1),
 ];
+
+/// compare the whole stack after a routing program with the by-hand outcome (consumed arguments,
+/// outputs top first); the untouched arguments beneath must still be there
+fn routing_compare(rep: &mut Rep, ev: &mut usize, fam: &str, opd: &str, variants: &[(String, &str)], args: &[Value], hand: &Result<(usize, Vec<Value>), String>) {
+    for (src, vname) in variants {
+        *ev += 1;
+        let mut st: Vec<Value> = args.to_vec();
+        st.reverse();
+        let imp = run_uiua_with(src, &st).map(|mut o| {
+            o.reverse();
+            o
+        });
+        rep.count(fam);
+        let ok = match (hand, &imp) {
+            (Ok((used, outs)), Ok(st)) => {
+                let want: Vec<&Value> = outs.iter().chain(args[*used..].iter()).collect();
+                want.len() == st.len() && want.iter().zip(st.iter()).all(|(a, b)| val_eq(a, b))
+            }
+            (Err(_), Err(_)) => true,
+            _ => false,
+        };
+        if !ok {
+            let hs = match hand {
+                Ok((u, o)) => format!("consumes {u}, outputs {:?}", o.iter().map(|v| v.show().replace('\n', " ")).collect::<Vec<_>>()),
+                Err(e) => format!("ERR {}", e.lines().next().unwrap_or("")),
+            };
+            let gs = match &imp {
+                Ok(o) => format!("{:?}", o.iter().map(|v| v.show().replace('\n', " ")).collect::<Vec<_>>()),
+                Err(e) => format!("ERR {}", e.lines().next().unwrap_or("")),
+            };
+            rep.report(fam, "routing", opd, vname, &src.replace('\n', " ; "), &args.iter().collect::<Vec<_>>(), &hs, &gs);
+        }
+    }
+}
+
+/// the three spellings of a modifier applied to a PACK of functions
+fn pack_variants(m: &str, fs: &[(&str, usize, usize)], exp: &str) -> Vec<(String, &'static str)> {
+    let bares: Vec<&str> = fs.iter().map(|f| bare_of(f.0)).collect();
+    let mut v = vec![(format!("{exp}{m}({})", bares.join("|")), "direct")];
+    let names = ["Fa", "Fb", "Fc", "Fd"];
+    let mut pre = String::new();
+    for (i, b) in bares.iter().enumerate() {
+        pre.push_str(&format!("{} ← {}\n", names[i], b));
+    }
+    v.push((format!("{exp}{pre}{m}({})", names[..bares.len()].join("|")), "wrapper"));
+    if fs.iter().all(|f| f.1 > 0) {
+        v.push((format!("{exp}{m}({})", bares.iter().map(|b| format!("{b}∘")).collect::<Vec<_>>().join("|")), "noise"));
+    }
+    v
+}
+
+fn dist_args(r: &mut Rng, n: usize) -> Vec<Value> {
+    (0..n).map(|i| if r.chance(1, 4) { gen_value(r, &gcfg(2), 0) } else { num(&[], &[(10 + i) as f64]) }).collect()
+}
+
+/// fork / bracket with packs of 3-4 functions of mixed arities, subscripted both / on / by / with / off,
+/// chains of dip and gap
+fn routing_pack_case(rep: &mut Rep, ev: &mut usize, r: &mut Rng, kind: usize, fixed: Option<&[(&str, usize, usize)]>) {
+    let args = dist_args(r, 14);
+    match kind {
+        0 | 1 => {
+            let n = 3 + r.below(2);
+            let fs: Vec<(&str, usize, usize)> = match fixed {
+                Some(f) => f.to_vec(),
+                None => (0..n).map(|_| *r.pick(ROUTE_F)).collect(),
+            };
+            let m = if kind == 0 { "⊃" } else { "⊓" };
+            let hand: Result<(usize, Vec<Value>), String> = (|| {
+                let mut outs = Vec::new();
+                let mut off = 0;
+                for (f, fa, _) in &fs {
+                    let a = if kind == 0 { &args[..*fa] } else { &args[off..off + fa] };
+                    off += fa;
+                    outs.extend(calln("", f, a, ev)?);
+                }
+                let used = if kind == 0 { fs.iter().map(|f| f.1).max().unwrap_or(0) } else { off };
+                Ok((used, outs))
+            })();
+            let opd = fs.iter().map(|f| f.0).collect::<Vec<_>>().join("|");
+            routing_compare(rep, ev, &format!("{m}pack"), &opd, &pack_variants(m, &fs, ""), &args, &hand);
+        }
+        2 => {
+            // both with a numeric subscript: N sets of arguments
+            let (f, fa, _) = *r.pick(ROUTE_F);
+            if fa == 0 {
+                return;
+            }
+            let n = 2 + r.below(3);
+            let sub = ["₂", "₃", "₄"][n - 2];
+            let hand: Result<(usize, Vec<Value>), String> = (|| {
+                let mut outs = Vec::new();
+                for i in 0..n {
+                    outs.extend(calln("", f, &args[i * fa..(i + 1) * fa], ev)?);
+                }
+                Ok((n * fa, outs))
+            })();
+            let b = bare_of(f);
+            let vars = vec![(format!("∩{sub}{f}"), "direct"), (format!("Fa ← {b}\n∩{sub}Fa"), "wrapper"), (format!("∩{sub}({b}∘)"), "noise")];
+            routing_compare(rep, ev, "∩sub", f, &vars, &args, &hand);
+        }
+        3 => {
+            // on / by / with / off keeping N = 2 arguments
+            let (f, fa, _) = *r.pick(ROUTE_F);
+            if fa < 2 {
+                return;
+            }
+            let m = *r.pick(&["⟜", "⊸", "⤙", "⤚"]);
+            let hand: Result<(usize, Vec<Value>), String> = (|| {
+                let o = calln("", f, &args[..fa], ev)?;
+                let outs = match m {
+                    "⟜" => [args[..2].to_vec(), o].concat(),
+                    "⊸" => [o, args[fa - 2..fa].to_vec()].concat(),
+                    "⤙" => [args[fa - 2..fa].to_vec(), o].concat(),
+                    _ => [o, args[..2].to_vec()].concat(),
+                };
+                Ok((fa, outs))
+            })();
+            let b = bare_of(f);
+            let vars = vec![(format!("{m}₂{f}"), "direct"), (format!("Fa ← {b}\n{m}₂Fa"), "wrapper"), (format!("{m}₂({b}∘)"), "noise")];
+            routing_compare(rep, ev, &format!("{m}sub"), f, &vars, &args, &hand);
+        }
+        _ => {
+            // a chain of dips and gaps in front of F
+            let (f, fa, _) = *r.pick(ROUTE_F);
+            let len = 2 + r.below(2);
+            let chain: Vec<&str> = (0..len).map(|_| *r.pick(&["⊙", "⋅"])).collect();
+            let hand: Result<(usize, Vec<Value>), String> = (|| {
+                let kept: Vec<Value> = chain.iter().enumerate().filter(|(_, c)| **c == "⊙").map(|(i, _)| args[i].clone()).collect();
+                let o = calln("", f, &args[len..len + fa], ev)?;
+                Ok((len + fa, [kept, o].concat()))
+            })();
+            let c = chain.concat();
+            let b = bare_of(f);
+            let mut vars = vec![(format!("{c}{}", if fa == 0 { format!("({f})") } else { f.to_string() }), "direct"), (format!("Fa ← {b}\n{c}Fa"), "wrapper")];
+            if fa > 0 {
+                vars.push((format!("{c}({b}∘)"), "noise"));
+            }
+            routing_compare(rep, ev, "⊙⋅chain", &format!("{c}{f}"), &vars, &args, &hand);
+        }
+    }
+}
+
+/// regression / directed: packs whose FIRST function takes fewer arguments than the maximum
+fn routing_corpus(rep: &mut Rep, ev: &mut usize, r: &mut Rng) {
+    let packs: Vec<Vec<(&str, usize, usize)>> = vec![
+        vec![("¯", 1, 1), ("+", 2, 1), ("×", 2, 1)],
+        vec![("□", 1, 1), ("⊟", 2, 1), ("(⊟⊟)", 3, 1)],
+        vec![("⊟", 2, 1), ("(⊟⊟)", 3, 1), ("□", 1, 1)],
+        vec![("7", 0, 1), ("(⊟⊟)", 3, 1), ("⊂", 2, 1), ("△", 1, 1)],
+        vec![("(⊃⇌△)", 1, 2), ("◌", 1, 0), ("(⊟⊙⇌)", 2, 1), ("(⊟⊟)", 3, 1)],
+    ];
+    for p in &packs {
+        routing_pack_case(rep, ev, r, 0, Some(p));
+        routing_pack_case(rep, ev, r, 1, Some(p));
+    }
+    for kind in [2, 3, 4, 2, 3, 4] {
+        routing_pack_case(rep, ev, r, kind, None);
+    }
+}
 
 fn routing_case(rep: &mut Rep, ev: &mut usize, r: &mut Rng) {
     let mods = ["⊙", "⋅", "⟜", "⊸", "⤙", "⤚", "◠", "◡", "∩", "⊓", "⊃", "˜", "˙"];
